@@ -336,7 +336,7 @@ def r87(repo, ctx, index):
         if not (ok_min and ok_bins and ok_max):
             bad.append(f'min={show(mn)[:30]}, max={show(mx)[:50]}, bins={show(bn)[:30]}')
     ctx.analysed['paths'] += len(outs)
-    ctx.check(bool(outs) and not bad and stmt.lineno < min(s.lineno for s in stores), 'R8.7', path, q, stmt,
+    ctx.check(bool(outs) and not bad and all(U.seq(f)[id(stmt)] < U.seq(f)[id(s)] for s in stores), 'R8.7', path, q, stmt,
               'loaded arrays go into a population balance whose min/max/bins are the saved ones on every path of the rebuild',
               f'after the rebuild the grid scalars are not the saved ones ({bad[:1]}): loaded PSD/PSDbounds/PSDsize do not match bins/min/max',
               construct=U.src(stmt))
